@@ -163,8 +163,8 @@
         }),
         // C19: the replicated high-water mark of history ids is adopted on EVERY apply of the entry, whatever the content
         param.history_table_id is Some ==> final(self).sequence.end() ==
-            (if old(self).sequence.end() >= param.history_table_id.unwrap() { old(self).sequence.end() } else { param.history_table_id.unwrap() as int }),   // @C19
-        param.history_table_id is None ==> final(self).sequence == old(self).sequence,   // @C19
+            (if old(self).sequence.end() >= param.history_table_id.unwrap() { old(self).sequence.end() } else { param.history_table_id.unwrap() as int }),   // @C19 @C07
+        param.history_table_id is None ==> final(self).sequence == old(self).sequence,   // @C19 @C07
         final(self).subscriber == old(self).subscriber,   // @C10
 @@ ConfigActor::set_config entry
     broadcast use vstd::std_specs::hash::group_hash_axioms;
